@@ -56,6 +56,11 @@ def run(run, ix, tier):
     if n < 300:
         raise AnalysisError('C-R15 judged only %d kernel arguments' % n)
     check_inherited_endpoints(run, ix)
+    # C-R5 for the kernels that the rectangle functions call with an explicit directed mode (corner values of gamma)
+    from . import c14
+    run.rule('C-R5', floor=1, desc='kernels called with a directed mode by rectangle functions honour it')
+    run.rule('C-R5g', floor=1, desc='... and do not round a weakly guarded undirected intermediate')
+    c14.check_directed_kernels(run, ix, callers=('mpci_',))
 
 
 def check_binary_op(run, ix):
@@ -197,7 +202,7 @@ def check_inherited_endpoints(run, ix):
     for n in sorted(top):
         if not n.startswith('mpci_'):
             continue
-        r = reach(n, set())
+        r = reach(n, set()) | {n}
         hits = sorted(x for x in r if x in bad)
         if not hits:
             run.ok('C-R14t', '%s reaches no interval function with unwidened transcendental endpoints' % n)
